@@ -12,7 +12,7 @@ CLAIMED = {
          "4 C02", "the whole-program corollary (induction over all user programs) is stated under U, not discharged; custom SerDes round trip is a hypothesis"),
  "C03": ("trace postconditions on every path of step/child/wait_for_condition/wait/invoke/callback handlers: values and final errors only after the synchronous terminal update was accepted; suspensions only after a synchronous START/RETRY or with an existing non-terminal record",
          "4 C03", "real-time schedules of the OS thread pool (G assumed)"),
- "C04": ("for at-most-once semantics every path entering the user function is preceded, in the same call, by an accepted synchronous START and a re-read STARTED record; a STARTED record on entry is never re-run",
+ "C04": ("for at-most-once semantics every path entering the user function is preceded, in the same call, by an accepted synchronous START and a re-read STARTED record; a STARTED record on entry is never re-run; plus the contracts this rests on: history completeness, faithful lookup, the synchronous START returns through its completion event, the consumer acknowledges after the merge",
          "4 C04", "-"),
  "C11": ("per-call update sequences of every handler form a word of the lifecycle automaton for every record in the backend's status domain; ids/parent/name/type passthrough",
          "4 C11", "cross-thread ordering is C05/C10"),
@@ -20,20 +20,20 @@ CLAIMED = {
          "4 C12", "float rounding in the packaged strategies (A)"),
  "C13": ("wait_for_condition: state threading, poll number, stop/continue records with serialized state and delay max(1,d), no re-poll of completed/failed/pending",
          "4 C13", "-"),
- "C14": ("callback creation/result tables and invoke start/outcome tables for every backend status, payload and configuration",
+ "C14": ("callback creation/result tables and invoke start/outcome tables for every backend status, payload and configuration; delivered payloads are decoded exactly; wait_for_callback and the decorators by contract",
          "4 C14", "-"),
- "C15": ("structural induction over the value grammar on the REAL serialize/deserialize, codecs and _to_json_serializable: one obligation per constructor (None, bool, int, float, str, bytes, UUID, Decimal, datetime, date, list, tuple, string-keyed dict, batch result), children by induction hypothesis; envelope look-alikes; non-string / tuple keys and unsupported types are rejected; output never empty",
+ "C15": ("structural induction over the value grammar on the REAL serialize/deserialize, codecs and _to_json_serializable: one obligation per constructor (None, bool, int, float, str, bytes, UUID, Decimal, datetime, date, list, tuple, string-keyed dict, batch result), children by induction hypothesis; envelope look-alikes; non-string / tuple keys and unsupported types are rejected; output never empty; ownership of the result (nothing retained or shared); dispatch on a value of arbitrary class (one known finding: subclass instances)",
          "4 C15", "the stdlib inverse pairs (json, base64, UUID, Decimal, isoformat) are assumed (S); non-finite floats, float rounding, huge ints and lone surrogates live inside those assumptions"),
- "C16": ("child-context size rule proved against the 256 KB constant read from the source; summary re-traversal sends no records",
+ "C16": ("child-context size rule proved against the 256 KB constant read from the source; summary re-traversal sends no records; the summary generator belongs to the whole map/parallel, not to a branch; the size test counts characters of an ASCII text; oversized handler result/error recorded first, with its content",
          "4 C16", "determinism of the re-run body (U)"),
- "C05": ("_collect_checkpoint_batch verified with three loop invariants over a ghost hand-over order (FIFO, contiguity across batch/overflow/main, limits, overflow <= 1, progress) for every arrival pattern, size and configuration; consumer loop: exactly-once hand-over to the API, token chain, release of every synchronous element on success and on failure",
+ "C05": ("_collect_checkpoint_batch verified with three loop invariants over a ghost hand-over order (FIFO, contiguity across batch/overflow/main, limits, overflow <= 1, progress) for every arrival pattern, size and configuration; consumer loop: exactly-once hand-over to the API, token chain, release of every synchronous element on success and on failure; the service client forwards one wire update per update in order; termination variants of the collection loops",
          "4 C05", "'eventually released' as liveness (termination of the service call, fairness) - replaced by the safety obligations release_all / progress"),
  "C06": ("consumer failure arm wakes every queued synchronous element with the wrapped cause, sets the failed flag and stops calling the API (loop invariants for both drains); create_checkpoint fails fast once the flag is set; every handler lets BackgroundThreadError pass without further effect; wrapper classification of checkpoint failures",
          "4 C06", "'terminates promptly' (timing); the check-then-put window of create_checkpoint and the executor callbacks are decided separately (see evidence)"),
- "C10": ("_mark_orphans verified against a closure contract with a BFS loop invariant; create_checkpoint maintains the closure invariant 'children of marked or completed contexts are marked' and rejects every update whose operation or parent is under a completed context; handlers stop at the rejected update before any user function",
-         "4 C10", "the window between releasing _parent_done_lock and the queue put (schedule; G)"),
+ "C10": ("_mark_orphans verified against a closure contract with a BFS loop invariant; create_checkpoint maintains the closure invariant 'children of marked or completed contexts are marked' and rejects every update whose operation or parent is under a completed context; the orphan test and the queue put are one atomic action; parent links of history records are registered; EVERY entry of a user function is preceded by an orphan check of its operation (an accepted update or raise_if_orphaned); lock discipline of the orphan bookkeeping",
+         "4 C10", "atomicity of a `with lock:` block and of a single Queue call (G); the forced-schedule scenarios are replays, not proofs"),
  "C18": ("the wrapper body executed symbolically for every handler outcome class: status/shape table, raises-only-for-retry, PENDING iff suspension, checkpoint thread stopped before the pool joins; LambdaClient wraps every API/parsing failure into the classified error",
-         "4 C18", "CheckpointError.from_exception's HTTP-status table is decided in C06.exec.is_retriable when built"),
+         "4 C18", "-"),
  "C07": ("SAFETY HALF ONLY: every suspension raised by a handler follows an accepted synchronous START/RETRY or an existing non-terminal record, with the right kind (timed / indefinite); should_execution_suspend verified with a loop invariant over any number of branches; the done-callback's status transitions and completion/suspension decision; PENDING iff SuspendExecution in the wrapper",
          "4 C07, 5", "LIVENESS IS NOT DECIDED: 'always woken again', 'reaches SUCCEEDED/FAILED after finitely many invocations', 'no invocation runs forever', and the real-time clause about a branch already running when the last sibling parked (needs fairness / real-time scheduling; outside contract-based verification)"),
  "C08": ("the id functions verified against a spec hash of (parent id, index); exactly one atomic counter increment per operation; every operation method of DurableContext and the branch executor link (id, parent id, child context parent) as the statement requires; string lemma: position text is injective",
